@@ -20,6 +20,11 @@ def is_private(name):
     return name.startswith('_') and not (name.startswith('__') and name.endswith('__'))
 
 
+def is_module_helper(op, callee):
+    """A private module-level function called by plain name: extracted helper code, analysed in the caller's context."""
+    return callee.cls is None and is_private(callee.name) and isinstance(op.val.func, ast.Name)
+
+
 class LockModel(Model):
     def __init__(self, program, spec):
         super().__init__(program)
@@ -27,7 +32,7 @@ class LockModel(Model):
 
     def inline(self, walker, op, callee, st):
         if callee.cls is None:
-            return False
+            return is_module_helper(op, callee)
         rv = op.recv_val
         rname = rv.id if isinstance(rv, ast.Name) else None
         if rname is None:
